@@ -459,7 +459,7 @@ pub fn exec_op(cx: &Cx, world: &mut World, op: &Value) {
             }
             let c = new_c(cx, s);
             let panicked = cx.stores[s].oob_insert(world, c);
-            emit(cx, json!({"op":"OobInsert","s":s+1,"c":[c.0,c.1],"panicked":panicked}), Some(&*world));
+            emit(cx, json!({"op":"OobInsert","s":s+1,"c":[c.0,c.1],"id":(1u32 << 24) + 5,"panicked":panicked}), Some(&*world));
         }
         "prealloc" => {
             // n entities created at once; only those at the `keep` positions survive
